@@ -190,6 +190,9 @@ OFFSETS = [0, 1, 0x10, 0x1000, 0xfff0, 0xffff, 0x10000, 0x7ffffff0, 0x7fffffff, 
            0xfffffff4, 0xfffffff6, 0xfffffff8, 0xfffffff9, 0xfffffffa, 0xfffffffb, 0xfffffffc, 0xfffffffd]
 
 
+RENDER_FORMATS = ['intel_syntax noprefix', 'intel_syntax', 'att_syntax', 'att_syntax binutils', 'att_syntax objdump', 'intel_syntax objdump', 'intel_syntax noprefix']
+
+
 def target_case(part, ia32, form, d, off):
     from miasmx.core.bin_stream import bin_stream
     name, pfx, opc, w, osz = form
@@ -232,6 +235,22 @@ def target_case(part, ia32, form, d, off):
         wrap = 'wrap' if (off + l + d) != exp_dst else 'plain'
         bad = ('target-%s' % wrap, 'getdstflow() = [%#x], architectural target %#x (offset %#x + length %d + disp %d, %d-bit)' % (
             int(dst[0]), exp_dst, off, l, d, osz))
+    if not bad:
+        # the reported flow is a property of the decoded instruction: rendering it (every output format) must not change it
+        try:
+            with core.quiet_stdout():
+                for fmt in RENDER_FORMATS:
+                    try:
+                        ins.__str__(asm_format=fmt)
+                    except Exception:
+                        pass            # a rendering that raises is C10's business; the flow must survive it all the same
+                    nf2, dst2 = ins.getnextflow(), ins.getdstflow()
+                    if nf2 != nf or [int(x) for x in dst2] != [int(dst[0])]:
+                        bad = ('flow-after-render', 'after rendering as %r: getnextflow() = %#x, getdstflow() = %s; before: %#x, [%#x]' % (
+                            fmt, nf2, [hex(int(x)) for x in dst2], nf, int(dst[0])))
+                        break
+        except Exception as ex:
+            bad = ('flow-after-render', 'rendering / re-reading the flow raises %r' % (ex,))
     if bad:
         part.n += 1
         part.violation('form=%s attr=%s' % (name, bad[0]), '%s at %#x: %s' % (enc.hex(), off, bad[1]), wit, size=abs(d) + off)
